@@ -10,6 +10,7 @@ package vsched
 
 import (
 	"fmt"
+	"reflect"
 	"runtime"
 	"sort"
 	"strconv"
@@ -34,6 +35,7 @@ type Thread struct {
 	ID      int
 	Name    string
 	Harness bool // started with Go(): the execution is complete only when all of these exited
+	Prio    int  // default schedule prefers lower values (environment / cancellation threads get higher ones)
 	gate    chan struct{}
 	state   int
 	waitOn  any
@@ -99,6 +101,7 @@ type Sched struct {
 	draining bool
 	foreign  map[int64]bool
 	stamp    int64
+	born     map[any]int
 }
 
 // S is the active scheduler (nil = pass-through).
@@ -108,19 +111,6 @@ var (
 	foreignOnce sync.Once
 	foreignG    map[int64]bool
 )
-
-func goid() int64 {
-	var buf [64]byte
-	n := runtime.Stack(buf[:], false)
-	// "goroutine 123 [running]:..."
-	s := buf[10:n]
-	i := 0
-	for i < len(s) && s[i] >= '0' && s[i] <= '9' {
-		i++
-	}
-	id, _ := strconv.ParseInt(string(s[:i]), 10, 64)
-	return id
-}
 
 // snapshotForeign records the goroutines that exist before the first execution of this process (test
 // runner, signal handlers, ...): they are never scheduled.
@@ -319,9 +309,14 @@ func Exit() {
 }
 
 // Go starts a harness thread (called from the bubble root before Run, or from another thread).
-func (s *Sched) Go(name string, f func()) {
+func (s *Sched) Go(name string, f func()) { s.GoPrio(name, 0, f) }
+
+// GoPrio starts a harness thread that the default (deviation-free) schedule runs only when no thread of lower
+// prio value is enabled: environment events, cancellations and shutdowns are "late" by default, and every
+// earlier placement of them costs deviations like any other departure from the default schedule.
+func (s *Sched) GoPrio(name string, prio int, f func()) {
 	s.mu.Lock()
-	t := &Thread{ID: len(s.threads), gate: make(chan struct{}), state: stNative, Name: name, Harness: true}
+	t := &Thread{ID: len(s.threads), gate: make(chan struct{}), state: stNative, Name: name, Harness: true, Prio: prio}
 	s.threads = append(s.threads, t)
 	s.mu.Unlock()
 	id := t.ID
@@ -450,11 +445,14 @@ func (s *Sched) enabled() (en []*Thread, lastEnabled bool) {
 		en = append(en, s.last)
 		lastEnabled = true
 	}
+	n0 := len(en)
 	for _, t := range s.threads {
 		if t.state == stParked && t != s.last {
 			en = append(en, t)
 		}
 	}
+	rest := en[n0:]
+	sort.SliceStable(rest, func(i, j int) bool { return rest[i].Prio < rest[j].Prio })
 	return
 }
 
@@ -511,6 +509,7 @@ func (s *Sched) Describe() string {
 // deadlock is detected or the step budget is exhausted. It returns true on normal completion.
 func (s *Sched) Run() bool {
 	idle := time.Duration(0)
+	idleRounds := 0
 	for {
 		synctest.Wait()
 		s.runResumed()
@@ -530,10 +529,20 @@ func (s *Sched) Run() bool {
 				return true
 			}
 			if idle < s.opt.Horizon {
+				// adaptive idle advance: start with IdleStep and double it while nothing happens, so that a
+				// long wait (a 15 s dial timeout) costs a handful of steps while timers that are close together
+				// are still delivered one by one
 				step := s.opt.IdleStep
 				if step <= 0 {
 					step = s.opt.Horizon
 				}
+				for k := 0; k < idleRounds; k++ {
+					step *= 2
+				}
+				if idle+step > s.opt.Horizon {
+					step = s.opt.Horizon - idle + time.Millisecond
+				}
+				idleRounds++
 				idle += step
 				s.logf("idle: advance virtual time by %v", step)
 				time.Sleep(step)
@@ -543,6 +552,7 @@ func (s *Sched) Run() bool {
 			return false
 		}
 		idle = 0
+		idleRounds = 0
 		nAlt := len(en)
 		ticks := 0
 		if !s.draining && s.ticksUsed < s.opt.MaxTicks {
@@ -714,4 +724,109 @@ func Sleep(d time.Duration) {
 	Point(-9)
 	time.Sleep(d)
 	After()
+}
+
+// ---- deterministic map iteration (Go randomises the order; see instr rangeMap) ----
+
+// Born records the first time a reference-typed map key is inserted: the order of insertion is the
+// canonical iteration order for keys without a natural order. Deterministic because executions are.
+func Born(k any) {
+	s := S
+	if s == nil {
+		return
+	}
+	s.mu.Lock()
+	if s.born == nil {
+		s.born = map[any]int{}
+	}
+	if _, ok := s.born[k]; !ok {
+		s.born[k] = len(s.born) + 1
+	}
+	s.mu.Unlock()
+}
+
+type MapIter[K comparable, V any] struct {
+	m    map[K]V
+	keys []K
+	i    int
+	K    K
+	V    V
+}
+
+func (it *MapIter[K, V]) Next() bool {
+	for it.i < len(it.keys) {
+		k := it.keys[it.i]
+		it.i++
+		if v, ok := it.m[k]; ok {
+			it.K, it.V = k, v
+			return true
+		}
+	}
+	return false
+}
+
+// MapRange returns an iterator over m in canonical order (native order when no scheduler is active).
+func MapRange[M ~map[K]V, K comparable, V any](m M) *MapIter[K, V] {
+	it := &MapIter[K, V]{m: m, keys: make([]K, 0, len(m))}
+	for k := range m {
+		it.keys = append(it.keys, k)
+	}
+	s := S
+	if s == nil || len(it.keys) < 2 {
+		return it
+	}
+	rank := make([]string, len(it.keys))
+	for i, k := range it.keys {
+		rank[i] = keyRank(s, any(k))
+	}
+	idx := make([]int, len(it.keys))
+	for i := range idx {
+		idx[i] = i
+	}
+	sort.SliceStable(idx, func(a, b int) bool { return rank[idx[a]] < rank[idx[b]] })
+	sorted := make([]K, len(it.keys))
+	for i, j := range idx {
+		sorted[i] = it.keys[j]
+	}
+	it.keys = sorted
+	return it
+}
+
+func keyRank(s *Sched, k any) string {
+	switch v := k.(type) {
+	case string:
+		return "s" + v
+	case int:
+		return fmt.Sprintf("i%020d", int64(v)+1<<62)
+	case int32:
+		return fmt.Sprintf("i%020d", int64(v)+1<<62)
+	case int64:
+		return fmt.Sprintf("i%020d", v/2+1<<61)
+	case uint32:
+		return fmt.Sprintf("i%020d", uint64(v))
+	case uint64:
+		return fmt.Sprintf("i%020d", v)
+	}
+	rv := reflect.ValueOf(k)
+	switch rv.Kind() {
+	case reflect.String:
+		return "s" + rv.String()
+	case reflect.Int, reflect.Int8, reflect.Int16, reflect.Int32, reflect.Int64:
+		return fmt.Sprintf("i%020d", rv.Int()/2+1<<61)
+	case reflect.Uint, reflect.Uint8, reflect.Uint16, reflect.Uint32, reflect.Uint64:
+		return fmt.Sprintf("i%020d", rv.Uint())
+	case reflect.Pointer, reflect.Chan, reflect.Interface, reflect.UnsafePointer, reflect.Func:
+		s.mu.Lock()
+		if s.born == nil {
+			s.born = map[any]int{}
+		}
+		n, ok := s.born[k]
+		if !ok {
+			n = len(s.born) + 1 // first seen while iterating: order among such keys is not owned
+			s.born[k] = n
+		}
+		s.mu.Unlock()
+		return fmt.Sprintf("p%012d", n)
+	}
+	return "v" + fmt.Sprint(k)
 }
